@@ -1,5 +1,5 @@
 #!/usr/bin/env python3
-"""Write seeded<k>/<id>/meta.json for batches 5-7 from what is on disk: the patch (files touched), my
+"""Write seeded<k>/<id>/meta.json for batches 5-8 from what is on disk: the patch (files touched), my
 confirmation log (suite with the change, demo with / without), the output of the check against it."""
 import json, os, re, sys
 ROOT = os.path.dirname(os.path.dirname(os.path.abspath(__file__)))
@@ -26,6 +26,14 @@ CHANGE = {
  ('seeded7','C17'): ("Debt::pay_all skips nodes no thread owns (Node::is_owned)", "a projection guard that outlives its loading thread's ownership of the node, then a store"),
  ('seeded7','C19'): ("unsafe impl Sync for ArcSwapAny<T, S> with bounds on T::Base instead of T", "a container of Rc / rc::Weak with a thread-safe pointee shared by reference between threads"),
  ('seeded7','C20'): ("#[derive(Default)] for LocalNode replacing the three struct literals (the TLS-destroyed path loses its node)", "serialization / deserialization from a thread-local destructor after the crate's thread-local is gone"),
+ ('seeded8','C01'): ("HybridProtection::into_inner pays the debt back first and takes its own reference only if that succeeded (was: increment, then pay, decrement if already paid)", "a writer whose walk passes the just-emptied slot and drops the last reference before the reader's increment (load_full / Guard::into_inner racing with a store)"),
+ ('seeded8','C03'): ("Slots::help keeps the replacement it loaded when its offer fails and offers the same (possibly stale) value on the next round", "two writers and a reader on the fallback path: the reader finishes one load and starts the next between the helper's load and its second offer"),
+ ('seeded8','C04'): ("hybrid compare_and_swap without the retry loop: a failed (strong) exchange is answered by a fresh load, not compared with `current`", "the same pointer comes back into the container (A, B, A) between the failed exchange and the fresh load"),
+ ('seeded8','C06'): ("hybrid compare_and_swap without the retry loop: after a failed exchange it returns a fresh load", "rcu on an ArcSwapOption going empty, non-empty, empty (or the same Arc stored again) under contention"),
+ ('seeded8','C08'): ("HybridProtection::attempt calls itself again when it finds its debt already paid (was: give the reference back and go to the fallback)", "a writer that replaces the value and pays the reader's slot between the slot write and the confirming read, again and again"),
+ ('seeded8','C10'): ("Debt::pay_all skips nodes no thread owns at the moment (Node::is_owned)", "guards handed out of a thread that then exits; a later store, container drop or into_inner by a thread that already has a node"),
+ ('seeded8','C14'): ("RefCnt::as_ptr for Weak / rc::Weak no longer maps the dangling Weak::new() to null", "single-threaded compare_and_swap / rcu on an ArcSwapWeak that holds Weak::new(), any strategy"),
+ ('seeded8','C18'): ("hybrid compare_and_swap converts `new` with into_ptr before the loop (as rw_lock.rs does): inside the loop it is no longer an owning local", "a panic of a pointee destructor that unwinds out of the loop (the last owner of the replaced value released inside a retry)"),
  ('seeded7','C07'): ("Debt::pay_all skips nodes that are not owned at the moment (Node::is_owned: in_use == NODE_USED), argued with a correct SeqCst ordering for later owners", "a guard whose node was handed back before the guard is dropped (a load from a thread-local destructor after the crate's own: temporary node), then a store"),
  ('seeded7','C09'): ("RefCnt::as_ptr for Weak / rc::Weak no longer maps the dangling Weak::new() to null (into_ptr/from_ptr still do)", "compare_and_swap or rcu on an ArcSwapWeak that holds Weak::new(): the comparison never succeeds, the loop never ends, running alone"),
 }
